@@ -115,8 +115,23 @@ CID count per multihash:%s
 	)
 }
 
+// highWaterReaderAt remembers how far into the underlying ReaderAt anything was read.
+type highWaterReaderAt struct {
+	r   io.ReaderAt
+	max int64
+}
+
+func (h *highWaterReaderAt) ReadAt(p []byte, off int64) (int, error) {
+	n, err := h.r.ReadAt(p, off)
+	if end := off + int64(n); end > h.max {
+		h.max = end
+	}
+	return n, err
+}
+
 func InspectCar(inStream *os.File, verifyHashes bool) (*Report, error) {
-	rd, err := carv2.NewReader(inStream, carv2.ZeroLengthSectionAsEOF(true))
+	hw := &highWaterReaderAt{r: inStream}
+	rd, err := carv2.NewReader(hw, carv2.ZeroLengthSectionAsEOF(true))
 	if err != nil {
 		return nil, err
 	}
@@ -126,11 +141,14 @@ func InspectCar(inStream *os.File, verifyHashes bool) (*Report, error) {
 	}
 
 	if stats.Version == 1 && verifyHashes { // check that we've read all the data
-		got, err := inStream.Read(make([]byte, 1)) // force EOF
-		if err != nil && err != io.EOF {
+		// Inspect reads through ReadAt, so the file offset says nothing; compare
+		// how far it got with the size of the file.
+		fi, err := inStream.Stat()
+		if err != nil {
 			return nil, err
-		} else if got > 0 {
-			return nil, fmt.Errorf("unexpected data after EOF: %d", got)
+		}
+		if extra := fi.Size() - hw.max; extra > 0 {
+			return nil, fmt.Errorf("unexpected data after EOF: %d", extra)
 		}
 	}
 
